@@ -44,7 +44,10 @@ var tmpDir string
 func main() {
 	o := hlib.ParseFlags()
 	r := hlib.NewResult("C15", o)
-	r.Rule = "esc: byte strings (controls, quotes, <>&, U+2028/9, every kind of invalid UTF-8) through encoding/json " +
+	r.Rule = "round 3: upstream/rewritten responses carry RCODEs 0..4095 (extended ones with an OPT record) and, rarely, values beyond " +
+		"the wire format; answer sections are lists of A/AAAA/HTTPS(hints)/other records incl. nil and malformed addresses; echoed " +
+		"question names in another case; ASNs up to 2^32-1; qclass HS/ANY/NONE/0; DO bit; filtering off per profile/device; rot: the " +
+		"log directory is missing, then renamed away and back under concurrent writers. esc: byte strings (controls, quotes, <>&, U+2028/9, every kind of invalid UTF-8) through encoding/json " +
 		"and the model escaper; fs: random querylog.Entry values through the real FileSystem.Write and the model's " +
 		"encodeLine, byte for byte, plus a JSON/field oracle per line; conc: 8-64 goroutines appending to one file, " +
 		"file compared with the model run on a schedule with the observed append order; stack: requests through " +
@@ -62,6 +65,7 @@ func main() {
 	escCampaign(o, r, m)
 	fsCampaign(o, r, m)
 	concCampaign(o, r, m)
+	rotCampaign(o, r, m)
 	stackCampaign(o, r, m)
 	cstackCampaign(o, r, m)
 
@@ -361,7 +365,7 @@ func genEntry(rng *rand.Rand, idx int, hostile bool) *querylog.Entry {
 		DeviceID:       agd.DeviceID(str("dev1234")),
 		DomainFQDN:     str("example.com."),
 		RequestType:    []uint16{1, 28, 16, 65, 255, 0, 65535}[rng.IntN(7)],
-		ResponseCode:   []uint16{0, 2, 3, 5, 0xff, 4095}[rng.IntN(6)],
+		ResponseCode:   []uint16{0, 2, 3, 5, 15, 16, 23, 0xff, 256, 4095, 65535}[rng.IntN(11)],
 		Protocol:       []agd.Protocol{agd.ProtoDNS, agd.ProtoDoH, agd.ProtoDoQ, agd.ProtoDoT, agd.ProtoDNSCrypt, 0}[rng.IntN(6)],
 		DNSSEC:         rng.IntN(2) == 0,
 	}
@@ -766,38 +770,9 @@ func concCampaign(o *hlib.Opts, r *hlib.Result, m *hlib.Model) {
 		g := []int{8, 16, 32, 64}[rng.IntN(4)]
 		per := 2 + rng.IntN(8)
 		total := g * per
-		entries := make([]*querylog.Entry, total)
-		for i := range entries {
-			entries[i] = genEntry(rng, i, true)
-			if rng.IntN(40) == 0 {
-				// A long rule: the record is larger than a pipe buffer / page.
-				entries[i].RequestResult = &filter.ResultBlocked{List: "custom",
-					Rule: filter.RuleText(strings.Repeat("||long.example^\n\"", 500+rng.IntN(4000)))}
-			}
-		}
+		entries := genConcEntries(rng, total)
 		errs := make([]error, total)
-		var wg sync.WaitGroup
-		start := make(chan struct{})
-		for w := 0; w < g; w++ {
-			wg.Add(1)
-			go func(w int) {
-				defer wg.Done()
-				<-start
-				for k := 0; k < per; k++ {
-					i := w*per + k
-					func() {
-						defer func() {
-							if p := recover(); p != nil {
-								errs[i] = fmt.Errorf("panic: %v", p)
-							}
-						}()
-						errs[i] = fs.Write(ctx, entries[i])
-					}()
-				}
-			}(w)
-		}
-		close(start)
-		wg.Wait()
+		runWriters(ctx, fs, entries, errs, 0, g, per)
 		replay := map[string]any{"campaign": "conc", "case": c, "goroutines": g, "writes_each": per}
 		for i, err := range errs {
 			if err != nil {
@@ -806,87 +781,235 @@ func concCampaign(o *hlib.Opts, r *hlib.Result, m *hlib.Model) {
 		}
 		data, err := os.ReadFile(path)
 		hlib.Must(err)
-		// Property oracle: only complete lines, one per write, each intact.
-		okAll := true
-		if len(data) > 0 && data[len(data)-1] != '\n' {
-			r.Violate("file-unterminated", "log file does not end with a line feed after concurrent writes", replay)
-			okAll = false
-		}
-		recs := bytes.SplitAfter(data, []byte("\n"))
-		if len(recs) > 0 && len(recs[len(recs)-1]) == 0 {
-			recs = recs[:len(recs)-1]
-		}
-		if len(recs) != total {
-			r.Violate("file-line-count", fmt.Sprintf("%d concurrent writes produced %d lines", total, len(recs)), replay)
-			okAll = false
-		}
-		byID := map[string]int{}
-		for i, e := range entries {
-			byID[e.RequestID.String()] = i
-		}
-		seen := map[int]bool{}
-		var order []int
-		rns := map[int]string{}
-		for _, rec := range recs {
-			var probe struct {
-				U string `json:"u"`
-			}
-			if err = json.Unmarshal(bytes.TrimRight(rec, "\n"), &probe); err != nil {
-				r.Violate("line-not-json", fmt.Sprintf("conc: line is not JSON (%v): %q", err, truncateB(rec, 300)), replay)
-				okAll = false
+		checkConcFile(r, m, rng, "conc", c, entries, make([]bool, total), data, replay)
+		r.Count(fmt.Sprintf("conc.goroutines_%d", g))
+	}
+}
 
-				continue
-			}
-			i, known := byID[probe.U]
-			if !known || seen[i] {
-				r.Violate("file-line-not-one-to-one", fmt.Sprintf("conc: line for request %q is unknown or duplicated", probe.U), replay)
-				okAll = false
-
-				continue
-			}
-			seen[i] = true
-			order = append(order, i)
-			rn, ok := checkLine(r, "conc", entries[i], rec, replay)
-			okAll = okAll && ok
-			rns[i] = rn
+func genConcEntries(rng *rand.Rand, total int) []*querylog.Entry {
+	entries := make([]*querylog.Entry, total)
+	for i := range entries {
+		entries[i] = genEntry(rng, i, true)
+		if rng.IntN(40) == 0 {
+			// A long rule: the record is larger than a pipe buffer / page.
+			entries[i].RequestResult = &filter.ResultBlocked{List: "custom",
+				Rule: filter.RuleText(strings.Repeat("||long.example^\n\"", 500+rng.IntN(4000)))}
 		}
-		if !okAll || len(order) != total {
-			r.Count("conc.cases_violating")
-			r.Case(fmt.Sprintf("conc %d %d %d", c, g, per), true)
+	}
+
+	return entries
+}
+
+// runWriters lets g goroutines write entries[from+w*per+k] concurrently.
+func runWriters(ctx context.Context, fs *querylog.FileSystem, entries []*querylog.Entry, errs []error, from, g, per int) {
+	var wg sync.WaitGroup
+	start := make(chan struct{})
+	for w := 0; w < g; w++ {
+		wg.Add(1)
+		go func(w int) {
+			defer wg.Done()
+			<-start
+			for k := 0; k < per; k++ {
+				i := from + w*per + k
+				func() {
+					defer func() {
+						if p := recover(); p != nil {
+							errs[i] = fmt.Errorf("panic: %v", p)
+						}
+					}()
+					errs[i] = fs.Write(ctx, entries[i])
+				}()
+			}
+		}(w)
+	}
+	close(start)
+	wg.Wait()
+}
+
+// checkConcFile is the file oracle and the correspondence check of the
+// concurrent campaigns: data must consist of exactly one intact line for every
+// write that did not fail, and equal the model's file for a schedule with the
+// observed append order (and the observed failures).
+func checkConcFile(r *hlib.Result, m *hlib.Model, rng *rand.Rand, camp string, c int, entries []*querylog.Entry, failed []bool,
+	data []byte, replay map[string]any) {
+	total := 0
+	for _, f := range failed {
+		if !f {
+			total++
+		}
+	}
+	// Property oracle: only complete lines, one per write, each intact.
+	okAll := true
+	if len(data) > 0 && data[len(data)-1] != '\n' {
+		r.Violate("file-unterminated", "log file does not end with a line feed after concurrent writes", replay)
+		okAll = false
+	}
+	recs := bytes.SplitAfter(data, []byte("\n"))
+	if len(recs) > 0 && len(recs[len(recs)-1]) == 0 {
+		recs = recs[:len(recs)-1]
+	}
+	if len(recs) != total {
+		r.Violate("file-line-count", fmt.Sprintf("%d successful concurrent writes produced %d lines", total, len(recs)), replay)
+		okAll = false
+	}
+	byID := map[string]int{}
+	for i, e := range entries {
+		byID[e.RequestID.String()] = i
+	}
+	seen := map[int]bool{}
+	var order []int
+	rns := map[int]string{}
+	for _, rec := range recs {
+		var probe struct {
+			U string `json:"u"`
+		}
+		if err := json.Unmarshal(bytes.TrimRight(rec, "\n"), &probe); err != nil {
+			r.Violate("line-not-json", fmt.Sprintf("%s: line is not JSON (%v): %q", camp, err, truncateB(rec, 300)), replay)
+			okAll = false
 
 			continue
 		}
-		// Correspondence: the model's file after a schedule whose appends
-		// happen in the observed order.
-		lines := []string{"fsinit"}
-		for i, e := range entries {
-			lines = append(lines, "fsw "+rns[i]+" "+entryTokens(e, e.Elapsed.Milliseconds()))
+		i, known := byID[probe.U]
+		if !known || seen[i] {
+			r.Violate("file-line-not-one-to-one", fmt.Sprintf("%s: line for request %q is unknown or duplicated", camp, probe.U), replay)
+			okAll = false
+
+			continue
 		}
-		lines = append(lines, schedule(rng, total, order)...)
-		lines = append(lines, "fsfile")
-		answers := m.Batch(lines)
-		if got := unhx(answers[len(answers)-1]); !bytes.Equal(got, data) {
-			r.Disagree("conc-file", fmt.Sprintf("file after %d concurrent writes differs from the model's (%d vs %d bytes)",
-				total, len(data), len(got)), map[string]any{"campaign": "conc", "ops": len(lines)})
+		if failed[i] {
+			r.Violate("failed-write-left-a-line", fmt.Sprintf("%s: Write of request %q returned an error but the file has its line", camp, probe.U), replay)
+			okAll = false
+
+			continue
 		}
-		inOrder := sort.IntsAreSorted(order)
-		if inOrder {
-			r.Count("conc.file_in_start_order")
+		seen[i] = true
+		order = append(order, i)
+		rn, ok := checkLine(r, camp, entries[i], rec, replay)
+		okAll = okAll && ok
+		rns[i] = rn
+	}
+	if !okAll || len(order) != total {
+		r.Count(camp + ".cases_violating")
+		r.Case(fmt.Sprintf("%s %d %d", camp, c, len(entries)), true)
+
+		return
+	}
+	// Correspondence: the model's file after a schedule whose appends
+	// happen in the observed order and whose failures are the observed ones.
+	lines := []string{"fsinit"}
+	for i, e := range entries {
+		rn := rns[i]
+		if failed[i] {
+			rn = "0"
+		}
+		lines = append(lines, "fsw "+rn+" "+entryTokens(e, e.Elapsed.Milliseconds()))
+	}
+	lines = append(lines, schedule(rng, len(entries), order, failed)...)
+	lines = append(lines, "fsfile")
+	answers := m.Batch(lines)
+	if got := unhx(answers[len(answers)-1]); !bytes.Equal(got, data) {
+		r.Disagree(camp+"-file", fmt.Sprintf("file after %d concurrent writes differs from the model's (%d vs %d bytes)",
+			total, len(data), len(got)), map[string]any{"campaign": camp, "ops": len(lines)})
+	}
+	inOrder := sort.IntsAreSorted(order)
+	if inOrder {
+		r.Count(camp + ".file_in_start_order")
+	} else {
+		r.Count(camp + ".file_interleaved")
+	}
+	r.Case(fmt.Sprintf("%s %v", camp, order), !inOrder || total != len(entries))
+	if c == 0 {
+		r.Sample(map[string]any{"campaign": camp, "writes": len(entries), "failed": len(entries) - total,
+			"first_lines_order": order[:min(12, len(order))]}, 9)
+	}
+	r.Traces++
+}
+
+// rotCampaign: the log file's directory is missing at first (every Write must
+// fail at open, return the error and leave nothing behind), then appears, and
+// is renamed away and back while many goroutines write.  Whatever the timing,
+// the file must consist of exactly one intact line for every Write that
+// returned nil, and none for those that returned an error.
+func rotCampaign(o *hlib.Opts, r *hlib.Result, m *hlib.Model) {
+	rng := o.Rand("rot")
+	cases := 12
+	if o.Thorough() {
+		cases = 120
+	}
+	ctx := context.Background()
+	for c := 0; c < cases; c++ {
+		dir := filepath.Join(tmpDir, fmt.Sprintf("rot-%d", c))
+		off := dir + ".off"
+		path := filepath.Join(dir, "log.jsonl")
+		fs := querylog.NewFileSystem(&querylog.FileSystemConfig{Logger: slogutil.NewDiscardLogger(), Path: path, RandSeed: rng.Uint64()})
+		g := []int{4, 8, 16, 32}[rng.IntN(4)]
+		per := 2 + rng.IntN(6)
+		nFail := 1 + rng.IntN(2*g)
+		total := nFail + 2*g*per
+		entries := genConcEntries(rng, total)
+		errs := make([]error, total)
+		replay := map[string]any{"campaign": "rot", "case": c, "goroutines": g, "writes_each": per, "writes_without_directory": nFail}
+		// Phase 1: no directory.  Half of the cases fail concurrently.
+		if c%2 == 0 {
+			runWriters(ctx, fs, entries, errs, 0, 1, nFail)
 		} else {
-			r.Count("conc.file_interleaved")
+			runWriters(ctx, fs, entries, errs, 0, nFail, 1)
 		}
-		r.Count(fmt.Sprintf("conc.goroutines_%d", g))
-		r.Case(fmt.Sprintf("conc %v", order), !inOrder)
-		if c == 0 {
-			r.Sample(map[string]any{"campaign": "conc", "goroutines": g, "writes": total, "first_lines_order": order[:min(12, len(order))]}, 9)
+		for i := 0; i < nFail; i++ {
+			if errs[i] == nil {
+				r.Violate("write-without-file-succeeded", "FileSystem.Write returned nil although the log file cannot be opened", replay)
+			}
 		}
-		r.Traces++
+		if _, err := os.Stat(path); err == nil {
+			r.Violate("write-without-file-succeeded", "a log file exists although its directory was missing", replay)
+		}
+		// Phase 2: the directory exists; everything is written.
+		hlib.Must(os.MkdirAll(dir, 0o755))
+		runWriters(ctx, fs, entries, errs, nFail, g, per)
+		// Phase 3: the directory is renamed away and back while writing.
+		stop := make(chan struct{})
+		done := make(chan struct{})
+		go func() {
+			defer close(done)
+			for {
+				select {
+				case <-stop:
+					return
+				default:
+				}
+				if os.Rename(dir, off) == nil {
+					runtime.Gosched()
+					hlib.Must(os.Rename(off, dir))
+				}
+				runtime.Gosched()
+			}
+		}()
+		runWriters(ctx, fs, entries, errs, nFail+g*per, g, per)
+		close(stop)
+		<-done
+		failed := make([]bool, total)
+		nf := 0
+		for i, err := range errs {
+			if err == nil {
+				continue
+			}
+			failed[i] = true
+			nf++
+			if !strings.Contains(err.Error(), "opening query log file") || !errors.Is(err, os.ErrNotExist) {
+				r.Violate("write-failed", fmt.Sprintf("rot: FileSystem.Write %d failed with something else than the missing file: %v", i, err), replay)
+			}
+		}
+		data, err := os.ReadFile(path)
+		hlib.Must(err)
+		checkConcFile(r, m, rng, "rot", c, entries, failed, data, replay)
+		r.Count("rot.failed_writes_" + map[bool]string{true: "only_initial", false: "also_during_rotation"}[nf == nFail])
+		_ = os.RemoveAll(dir)
 	}
 }
 
 // schedule returns fsstep lines: a random interleaving of the five steps of
 // each writer in which the appends (the step from pc 3) happen in order.
-func schedule(rng *rand.Rand, n int, order []int) (lines []string) {
+func schedule(rng *rand.Rand, n int, order []int, failed []bool) (lines []string) {
 	pc := make([]int, n)
 	buf := make([]int, n)
 	var free []int
@@ -927,14 +1050,20 @@ func schedule(rng *rand.Rand, n int, order []int) (lines []string) {
 				buf[i] = nbufs
 				nbufs++
 			}
+		case 2:
+			if failed[i] {
+				// os.OpenFile fails: state 6, then the deferred Put.
+				choice = fmt.Sprint(rng.IntN(3))
+				pc[i] = 5
+			}
 		case 3:
 			next++
-		case 4:
+		case 4, 6:
 			free = append(free, buf[i])
 		}
 		pc[i]++
 		lines = append(lines, fmt.Sprintf("fsstep %d %s", i, choice))
-		if pc[i] == 5 {
+		if pc[i] == 5 || pc[i] == 7 {
 			active = append(active[:k], active[k+1:]...)
 		}
 	}
@@ -948,91 +1077,251 @@ func schedule(rng *rand.Rand, n int, order []int) (lines []string) {
 type respDesc struct {
 	rcode int
 	ad    bool
-	ip    string // none | unspec | addr
+	// shape describes the answer section, record by record (see genShape).
+	shape string
 }
 
-func (d respDesc) String() string { return fmt.Sprintf("%d,%s,%s", d.rcode, b2s(d.ad), d.ip) }
+// String is the harness's own reading of a response: RCODE, AD, and the kind
+// of the first address in the answer section.
+func (d respDesc) String() string { return fmt.Sprintf("%d,%s,%s", d.rcode, b2s(d.ad), firstAddr(d.shape)) }
 
-func (d respDesc) tokens() string { return fmt.Sprintf("%d %s %s", d.rcode, b2s(d.ad), d.ip) }
+func (d respDesc) tokens() string { return fmt.Sprintf("%d %s %s", d.rcode, b2s(d.ad), d.shape) }
 
-// describe is the harness's own reading of a response: RCODE, AD, and the
-// kind of the first address in the answer section.
-func describe(m *dns.Msg) (d respDesc) {
-	d = respDesc{rcode: m.Rcode, ad: m.AuthenticatedData, ip: "none"}
-	for _, rr := range m.Answer {
-		var ip net.IP
-		switch v := rr.(type) {
-		case *dns.A:
-			ip = v.A
-		case *dns.AAAA:
-			ip = v.AAAA
-		case *dns.HTTPS:
-			for _, kv := range v.Value {
-				switch h := kv.(type) {
-				case *dns.SVCBIPv4Hint:
-					if len(h.Hint) > 0 {
-						ip = h.Hint[0]
-					}
-				case *dns.SVCBIPv6Hint:
-					if len(h.Hint) > 0 {
-						ip = h.Hint[0]
-					}
-				}
-				if ip != nil {
-					break
-				}
-			}
-			if ip == nil {
-				return d
-			}
-		default:
-			continue
-		}
-		if ip.IsUnspecified() {
-			d.ip = "unspec"
-		} else {
-			d.ip = "addr"
-		}
+// Answer shapes.  A shape is "-" (no records) or a comma-separated list of
+//
+//	o            a record without an address (TXT, CNAME, MX)
+//	a:K  aaaa:K  an address record whose net.IP is K
+//	https:KV;KV  an HTTPS record with the parameters KV: o (alpn, port),
+//	             4:K+K (ipv4hint), 6:K+K (ipv6hint); "4:" is an empty hint list
+//
+// where K is addr | unspec | nil (no net.IP at all) | bad (a net.IP of a
+// length no address has).  Only messages built in process can have nil or bad.
+var ipVals = []string{"addr", "addr", "addr", "addr", "addr", "unspec", "unspec", "nil", "bad"}
 
-		return d
+func genHints(rng *rand.Rand) string {
+	n := rng.IntN(3)
+	ks := make([]string, n)
+	for i := range ks {
+		ks[i] = ipVals[rng.IntN(len(ipVals))]
 	}
 
-	return d
+	return strings.Join(ks, "+")
 }
 
-// mkAnswer builds a response to req described by d.
+func genShape(rng *rand.Rand) string {
+	n := []int{0, 1, 1, 1, 1, 2, 2, 3}[rng.IntN(8)]
+	if n == 0 {
+		return "-"
+	}
+	rrs := make([]string, n)
+	for i := range rrs {
+		switch rng.IntN(8) {
+		case 0, 1:
+			rrs[i] = "o"
+		case 2, 3, 4:
+			rrs[i] = "a:" + ipVals[rng.IntN(len(ipVals))]
+		case 5:
+			rrs[i] = "aaaa:" + ipVals[rng.IntN(len(ipVals))]
+		default:
+			m := rng.IntN(4)
+			kvs := make([]string, m)
+			for j := range kvs {
+				switch rng.IntN(4) {
+				case 0:
+					kvs[j] = "o"
+				case 1, 2:
+					kvs[j] = "4:" + genHints(rng)
+				default:
+					kvs[j] = "6:" + genHints(rng)
+				}
+			}
+			rrs[i] = "https:" + strings.Join(kvs, ";")
+		}
+	}
+
+	return strings.Join(rrs, ",")
+}
+
+// firstAddr is the harness's own reading of doc/querylog.md and of the comment
+// of responseData ("the first IP address from the answer if it has the type A,
+// AAAA or HTTPS"): the first record that can carry an address decides; within
+// an HTTPS record the first non-empty hint list decides, by its first address;
+// something that is not an address counts as none.
+func firstAddr(shape string) string {
+	val := func(k string) string {
+		if k == "addr" || k == "unspec" {
+			return k
+		}
+
+		return "none"
+	}
+	if shape == "-" {
+		return "none"
+	}
+	for _, rr := range strings.Split(shape, ",") {
+		kind, arg, _ := strings.Cut(rr, ":")
+		switch kind {
+		case "a", "aaaa":
+			return val(arg)
+		case "https":
+			for _, kv := range strings.Split(arg, ";") {
+				fam, hints, _ := strings.Cut(kv, ":")
+				if (fam == "4" || fam == "6") && hints != "" {
+					return val(strings.Split(hints, "+")[0])
+				}
+			}
+
+			return "none"
+		}
+	}
+
+	return "none"
+}
+
+func ipClass(ip net.IP, v6 bool) string {
+	switch {
+	case ip == nil:
+		return "nil"
+	case !v6 && ip.To4() == nil, v6 && len(ip) != net.IPv6len && len(ip) != net.IPv4len:
+		return "bad"
+	case v6 && ip.To16().Equal(net.IPv6unspecified), !v6 && ip.To4().Equal(net.IPv4zero):
+		return "unspec"
+	}
+
+	return "addr"
+}
+
+// shapeOf renders the answer section of a real message as a shape.
+func shapeOf(m *dns.Msg) string {
+	if len(m.Answer) == 0 {
+		return "-"
+	}
+	var rrs []string
+	for _, rr := range m.Answer {
+		switch v := rr.(type) {
+		case *dns.A:
+			rrs = append(rrs, "a:"+ipClass(v.A, false))
+		case *dns.AAAA:
+			rrs = append(rrs, "aaaa:"+ipClass(v.AAAA, true))
+		case *dns.HTTPS:
+			var kvs []string
+			for _, kv := range v.Value {
+				var hints []net.IP
+				fam := "o"
+				switch h := kv.(type) {
+				case *dns.SVCBIPv4Hint:
+					fam, hints = "4", h.Hint
+				case *dns.SVCBIPv6Hint:
+					fam, hints = "6", h.Hint
+				}
+				if fam == "o" {
+					kvs = append(kvs, "o")
+
+					continue
+				}
+				ks := make([]string, len(hints))
+				for i, ip := range hints {
+					ks[i] = ipClass(ip, fam == "6")
+				}
+				kvs = append(kvs, fam+":"+strings.Join(ks, "+"))
+			}
+			rrs = append(rrs, "https:"+strings.Join(kvs, ";"))
+		default:
+			rrs = append(rrs, "o")
+		}
+	}
+
+	return strings.Join(rrs, ",")
+}
+
+// describe reads a real response.
+func describe(m *dns.Msg) (d respDesc) {
+	return respDesc{rcode: m.Rcode, ad: m.AuthenticatedData, shape: shapeOf(m)}
+}
+
+// mkIP builds the net.IP for K; addr carries the identity of the request.
+func mkIP(k string, v6 bool, addr net.IP) net.IP {
+	switch k {
+	case "nil":
+		return nil
+	case "bad":
+		return net.IP{1, 2, 3}
+	case "unspec":
+		if v6 {
+			return make(net.IP, 16)
+		}
+
+		return net.IP{0, 0, 0, 0}
+	}
+	if v6 {
+		return net.IP{0x20, 0x01, 0x0d, 0xb8, 0, 0x77, 0, 0, 0, 0, 0, 0, 0, 0, addr[len(addr)-2], addr[len(addr)-1]}
+	}
+
+	return append(net.IP(nil), addr...)
+}
+
+// mkAnswer builds a response to req described by d.  variant selects legal
+// variations that must not matter: which record without an address is used,
+// the case of the echoed question name, an OPT record.
 func mkAnswer(req *dns.Msg, d respDesc, variant int, addr net.IP) *dns.Msg {
 	// Fresh slices: the production cloner pools records and reuses their
 	// address arrays.
-	addr = append(net.IP(nil), addr...)
 	resp := (&dns.Msg{}).SetReply(req)
 	resp.Rcode = d.rcode
 	resp.AuthenticatedData = d.ad
 	resp.RecursionAvailable = true
 	name := req.Question[0].Name
+	switch variant % 4 {
+	case 1:
+		// Servers may echo the question in another case.
+		resp.Question[0].Name = strings.ToLower(name)
+	case 2:
+		resp.Question[0].Name = strings.ToUpper(name)
+	}
+	if d.rcode > 0xF || variant%3 == 1 {
+		// An extended RCODE travels in the OPT record.
+		resp.Extra = append(resp.Extra, &dns.OPT{Hdr: dns.RR_Header{Name: ".", Rrtype: dns.TypeOPT, Class: 1232}})
+	}
 	hdr := func(t uint16) dns.RR_Header { return dns.RR_Header{Name: name, Rrtype: t, Class: dns.ClassINET, Ttl: 60} }
-	switch d.ip {
-	case "addr":
-		switch variant % 3 {
-		case 0:
-			resp.Answer = append(resp.Answer, &dns.A{Hdr: hdr(dns.TypeA), A: addr})
-		case 1:
-			resp.Answer = append(resp.Answer, &dns.AAAA{Hdr: hdr(dns.TypeAAAA),
-				AAAA: net.IP{0x20, 0x01, 0x0d, 0xb8, 0, 0x77, 0, 0, 0, 0, 0, 0, 0, 0, addr[len(addr)-2], addr[len(addr)-1]}})
+	if d.shape == "-" {
+		return resp
+	}
+	for i, rr := range strings.Split(d.shape, ",") {
+		kind, arg, _ := strings.Cut(rr, ":")
+		switch kind {
+		case "a":
+			resp.Answer = append(resp.Answer, &dns.A{Hdr: hdr(dns.TypeA), A: mkIP(arg, false, addr)})
+		case "aaaa":
+			resp.Answer = append(resp.Answer, &dns.AAAA{Hdr: hdr(dns.TypeAAAA), AAAA: mkIP(arg, true, addr)})
+		case "https":
+			h := &dns.HTTPS{SVCB: dns.SVCB{Hdr: hdr(dns.TypeHTTPS), Priority: 1, Target: "."}}
+			for _, kv := range strings.Split(arg, ";") {
+				fam, hints, _ := strings.Cut(kv, ":")
+				var ips []net.IP
+				if hints != "" {
+					for _, k := range strings.Split(hints, "+") {
+						ips = append(ips, mkIP(k, fam == "6", addr))
+					}
+				}
+				switch fam {
+				case "4":
+					h.Value = append(h.Value, &dns.SVCBIPv4Hint{Hint: ips})
+				case "6":
+					h.Value = append(h.Value, &dns.SVCBIPv6Hint{Hint: ips})
+				case "o":
+					h.Value = append(h.Value, &dns.SVCBAlpn{Alpn: []string{"h2"}})
+				}
+			}
+			resp.Answer = append(resp.Answer, h)
 		default:
-			resp.Answer = append(resp.Answer, &dns.TXT{Hdr: hdr(dns.TypeTXT), Txt: []string{"x"}},
-				&dns.HTTPS{SVCB: dns.SVCB{Hdr: hdr(dns.TypeHTTPS), Priority: 1, Target: ".",
-					Value: []dns.SVCBKeyValue{&dns.SVCBAlpn{Alpn: []string{"h2"}}, &dns.SVCBIPv4Hint{Hint: []net.IP{addr}}}}})
-		}
-	case "unspec":
-		if variant%2 == 0 {
-			resp.Answer = append(resp.Answer, &dns.A{Hdr: hdr(dns.TypeA), A: net.IP{0, 0, 0, 0}})
-		} else {
-			resp.Answer = append(resp.Answer, &dns.AAAA{Hdr: hdr(dns.TypeAAAA), AAAA: make(net.IP, 16)})
-		}
-	default:
-		if variant%2 == 0 {
-			resp.Answer = append(resp.Answer, &dns.TXT{Hdr: hdr(dns.TypeTXT), Txt: []string{"nothing"}})
+			switch (variant + i) % 3 {
+			case 0:
+				resp.Answer = append(resp.Answer, &dns.TXT{Hdr: hdr(dns.TypeTXT), Txt: []string{"x"}})
+			case 1:
+				resp.Answer = append(resp.Answer, &dns.CNAME{Hdr: hdr(dns.TypeCNAME), Target: "alias.example."})
+			default:
+				resp.Answer = append(resp.Answer, &dns.MX{Hdr: hdr(dns.TypeMX), Preference: 10, Mx: "mx.example."})
+			}
 		}
 	}
 
@@ -1077,6 +1366,8 @@ type spec struct {
 	ecs                                               int // 0 none, 1 valid, 2 malformed
 	blockMode                                         int // index into blockModes
 	special, debug, adWanted, ctxErr, upErr, writeErr bool
+	doBit, fltOff, devFltOff                          bool
+	qclass                                            uint16
 	reqKind, respKind                                 int
 	reqList, reqRule, respList, respRule              string
 	name                                              string
@@ -1104,6 +1395,12 @@ type spec struct {
 }
 
 var kinds = []string{"none", "allowed", "blocked", "modresp", "modreq"}
+
+// rcodes of upstream answers: the common ones, every boundary of the four
+// header bits, the extended codes of the OPT record (BADVERS 16 ... BADCOOKIE
+// 23, the largest one 4095), and, rarely, values no message can carry, which
+// pin down the conversion to uint16 (compared with the model only).
+var rcodes = []int{0, 0, 0, 0, 0, 0, 0, 0, 2, 2, 3, 3, 1, 4, 5, 9, 15, 16, 16, 17, 22, 23, 255, 256, 4095, 4096, 65536, 65539}
 
 var clientIPs = []string{"10.0.0.1", "10.0.0.2", "198.51.100.7", "2001:db8:1::5", "203.0.113.200", "::ffff:10.9.8.7"}
 
@@ -1142,16 +1439,16 @@ func genSpec(rng *rand.Rand, idx int, conc bool) *spec {
 		reqRule:     []string{"", "||example.com^", "@@||a^", "|x|\n\"<&>\\", "\xff\xfe rule"}[rng.IntN(5)],
 		respRule:    []string{"", "||cname.example^", "1.2.3.4", " resp"}[rng.IntN(4)],
 		name:        names[rng.IntN(len(names))],
-		qtype:       []uint16{dns.TypeA, dns.TypeA, dns.TypeAAAA, dns.TypeTXT, dns.TypeHTTPS, dns.TypeMX, dns.TypePTR, dns.TypeSVCB, dns.TypeCAA, 65280}[rng.IntN(10)],
+		qtype:       []uint16{dns.TypeA, dns.TypeA, dns.TypeAAAA, dns.TypeTXT, dns.TypeHTTPS, dns.TypeMX, dns.TypePTR, dns.TypeSVCB, dns.TypeCAA, 65280, 0, 255, 256, 65535}[rng.IntN(14)],
 		ip:          netip.MustParseAddr(clientIPs[rng.IntN(len(clientIPs))]),
 		idx:         idx,
 		startMs:     []int64{1628590394000, 1700000000123, 1, time.Now().UnixMilli() + 3600000}[rng.IntN(4)],
 		hasLoc:      rng.IntN(4) > 0,
 		locCtry:     countries[rng.IntN(len(countries))],
-		locASN:      []uint32{0, 42, 65000}[rng.IntN(3)],
-		orig:        respDesc{rcode: []int{0, 0, 0, 2, 3}[rng.IntN(5)], ad: rng.IntN(3) == 0, ip: []string{"addr", "addr", "unspec", "none"}[rng.IntN(4)]},
-		mod:         respDesc{rcode: []int{0, 0, 3}[rng.IntN(3)], ad: false, ip: []string{"addr", "unspec", "none"}[rng.IntN(3)]},
-		origVariant: rng.IntN(6),
+		locASN:      []uint32{0, 42, 65000, 65535, 65536, 4200000000, 4294967295}[rng.IntN(7)],
+		orig:        respDesc{rcode: rcodes[rng.IntN(len(rcodes))], ad: rng.IntN(3) == 0, shape: genShape(rng)},
+		mod:         respDesc{rcode: []int{0, 0, 0, 3, 5, 16, 23, 4095}[rng.IntN(8)], ad: false, shape: genShape(rng)},
+		origVariant: rng.IntN(12),
 		geoCtry:     countries[rng.IntN(len(countries))],
 		profRl:      []int{0, 0, 0, 0, 0, 0, 1, 1, 2}[rng.IntN(9)],
 		ecs:         []int{0, 0, 0, 0, 0, 0, 0, 0, 1, 1, 2}[rng.IntN(11)],
@@ -1172,10 +1469,19 @@ func genSpec(rng *rand.Rand, idx int, conc bool) *spec {
 	s.debug = one(10)
 	s.ctxErr, s.upErr = one(25), one(20)
 	s.writeErr = one(12)
-	s.adWanted = one(2)
+	s.adWanted = one(3)
+	// The DO bit asks for the AD flag like the AD bit does.
+	s.doBit = one(4)
+	// Classes other than IN and CH are served like IN.
+	s.qclass = []uint16{dns.ClassINET, dns.ClassINET, dns.ClassINET, dns.ClassINET, dns.ClassINET, dns.ClassINET, dns.ClassHESIOD,
+		dns.ClassANY, dns.ClassNONE, 0, 65535}[rng.IntN(11)]
+	// Filtering switched off for the profile or the device: an empty filter, but
+	// billing and logging go on.
+	s.fltOff, s.devFltOff = one(12), one(12)
 	if s.special {
 		s.name = "x.resolver.arpa."
 		s.debug = false
+		s.qclass = dns.ClassINET
 	}
 	if s.gbh {
 		s.name = "globally-blocked.example."
@@ -1206,7 +1512,7 @@ func (s *spec) request() *dns.Msg {
 	req.Id = uint16(1000 + s.idx)
 	req.RecursionDesired = true
 	req.AuthenticatedData = s.adWanted
-	qc := uint16(dns.ClassINET)
+	qc := s.qclass
 	if s.debug {
 		qc = dns.ClassCHAOS
 	}
@@ -1220,6 +1526,13 @@ func (s *spec) request() *dns.Msg {
 		req.SetEdns0(1232, false)
 		opt := req.IsEdns0()
 		opt.Option = append(opt.Option, &dns.EDNS0_SUBNET{Code: dns.EDNS0SUBNET, Family: 3, SourceNetmask: 24, Address: net.IP{198, 51, 100, 0}})
+	}
+	if s.doBit {
+		if req.IsEdns0() == nil {
+			req.SetEdns0(4096, true)
+		} else {
+			req.IsEdns0().SetDo()
+		}
 	}
 
 	return req
@@ -1347,7 +1660,7 @@ func newFixture(seed uint64, conc bool) (f *fixture) {
 		switch s.devKind {
 		case "ok", "authfail", "deleted":
 			dev := &agd.Device{Auth: &agd.AuthSettings{PasswordHash: agdpasswd.AllowAuthenticator{}}, ID: agd.DeviceID(s.devID),
-				FilteringEnabled: true}
+				FilteringEnabled: !s.devFltOff}
 			if s.devKind == "authfail" {
 				// Authentication that no scripted request can pass: DoH only,
 				// and the DoH requests carry no credentials.
@@ -1360,7 +1673,7 @@ func newFixture(seed uint64, conc bool) (f *fixture) {
 				Access: fakeAccess{blocked: &blocked}, BlockingMode: blockModes[s.blockMode],
 				Ratelimiter: fakeRL{res: []agd.RatelimitResult{agd.RatelimitResultUseGlobal, agd.RatelimitResultPass, agd.RatelimitResultDrop}[s.profRl]},
 				ID:          agd.ProfileID(s.profID), DeviceIDs: []agd.DeviceID{dev.ID}, FilteredResponseTTL: 10 * time.Second,
-				FilteringEnabled: true, QueryLogEnabled: s.qlog, IPLogEnabled: s.iplog, Deleted: s.devKind == "deleted",
+				FilteringEnabled: !s.fltOff, QueryLogEnabled: s.qlog, IPLogEnabled: s.iplog, Deleted: s.devKind == "deleted",
 			}
 
 			return prof, dev, nil
@@ -1394,6 +1707,18 @@ func newFixture(seed uint64, conc bool) (f *fixture) {
 
 			return s.gotResp, nil
 		},
+	}
+	noFlt := &agdtest.Filter{
+		OnFilterRequest: func(ctx context.Context, _ *filter.Request) (filter.Result, error) {
+			s := f.specCtx(ctx)
+			if s.ctxErr {
+				s.cancel()
+			}
+			f.yield()
+
+			return nil, nil
+		},
+		OnFilterResponse: func(context.Context, *filter.Response) (filter.Result, error) { return nil, nil },
 	}
 	f.fs, f.logPath = newFS(map[bool]string{false: "stack.jsonl", true: "cstack.jsonl"}[conc], seed)
 	ql := &agdtest.QueryLog{OnWrite: func(ctx context.Context, e *querylog.Entry) error {
@@ -1449,7 +1774,14 @@ func newFixture(seed uint64, conc bool) (f *fixture) {
 			OnCountResponses: func(context.Context, *dns.Msg, netip.Addr) {},
 		},
 		FilterStorage: &agdtest.FilterStorage{
-			OnForConfig: func(context.Context, filter.Config) filter.Interface { return flt },
+			OnForConfig: func(_ context.Context, c filter.Config) filter.Interface {
+				if c == nil {
+					// Filtering is off for the profile or the device.
+					return noFlt
+				}
+
+				return flt
+			},
 			OnHasListID: func(filter.ID) bool { return true },
 		},
 		GeoData: func(_ string, ip netip.Addr) (*geoip.Location, error) {
@@ -1552,11 +1884,15 @@ func (f *fixture) prepare(s *spec) {
 	blockedMsg, err := msgs.NewBlockedResp(s.request())
 	if err != nil {
 		blockErr = true
-		s.blocked = respDesc{rcode: dns.RcodeServerFailure, ip: "none"}
+		s.blocked = respDesc{rcode: dns.RcodeServerFailure, shape: "-"}
 	} else {
 		s.blocked = describe(blockedMsg)
 	}
 	ip := s.ip.Unmap().String()
+	if s.attributedIn() && (s.fltOff || s.devFltOff) {
+		// The empty filter: no verdicts (the scripted filter is not asked).
+		s.reqKind, s.respKind = 0, 0
+	}
 	if s.reqKind == 0 {
 		s.reqList, s.reqRule = "", ""
 	}
@@ -1565,7 +1901,7 @@ func (f *fixture) prepare(s *spec) {
 	}
 	s.line = strings.Join([]string{"serve", b2s(s.port0), s.devKind, hx(s.profID), b2s(s.qlog), b2s(s.iplog), hx(s.devID),
 		b2s(s.gbi), b2s(s.gbh), b2s(s.pb), b2s(s.ecs == 2), b2s(s.rlDrop), fmt.Sprint(s.profRl), b2s(s.special), b2s(s.debug),
-		b2s(s.adWanted), b2s(s.ctxErr), b2s(s.upErr),
+		b2s(s.adWanted || s.doBit), b2s(s.ctxErr), b2s(s.upErr),
 		b2s(s.writeErr), kinds[s.reqKind], hx(s.reqList), hx(s.reqRule), kinds[s.respKind], hx(s.respList), hx(s.respRule), b2s(blockErr),
 		hx(s.name), fmt.Sprint(s.qtype), fmt.Sprint(uint8(s.proto())), hx(ip), hx(ridOf(s.idx).String()), fmt.Sprint(s.startMs),
 		b2s(s.hasLoc), hx(s.locCtry), fmt.Sprint(s.locASN), s.orig.tokens(), s.blocked.tokens(), s.mod.tokens(), hx(s.geoCtry)}, " ")
@@ -1639,13 +1975,32 @@ func oracle(r *hlib.Result, s *spec, bills []stack.BillRec, checkBills bool) {
 		if !own {
 			r.Violate("entry-not-own-request", fmt.Sprintf("entry %+v does not describe request %s", e, s.line), replay)
 		}
+		// doc/querylog.md, properties c and a: the detected country and ASN of
+		// the client's address; d: the country of the first address of the
+		// response, QN when the response has no address information.
+		wantCtry, wantASN := "", uint32(0)
+		if s.hasLoc {
+			wantCtry, wantASN = s.locCtry, s.locASN
+		}
+		if string(e.ClientCountry) != wantCtry || uint32(e.ClientASN) != wantASN {
+			r.Violate("entry-wrong-client-location", fmt.Sprintf("entry has client country %q and ASN %d, the client's are %q and %d",
+				e.ClientCountry, e.ClientASN, wantCtry, wantASN), replay)
+		}
+		if d := string(e.ResponseCountry); d != "QN" && d != s.geoCtry {
+			r.Violate("entry-wrong-response-country", fmt.Sprintf("entry has response country %q, this request's response address is in %q", d, s.geoCtry), replay)
+		}
+		if s.rw.msg != nil && s.rw.msg.Rcode <= 0xFFF && e.ResponseCountry != "QN" &&
+			(s.rw.msg.Rcode != 0 || firstAddr(shapeOf(s.rw.msg)) != "addr" && firstAddr(s.orig.shape) != "addr") {
+			r.Violate("entry-wrong-response-country", fmt.Sprintf("entry has response country %q although the response (rcode %d) has no address to locate",
+				e.ResponseCountry, s.rw.msg.Rcode), replay)
+		}
 		if s.reqKind != 4 && e.ResponseResult != s.gotResp {
 			r.Violate("entry-not-own-request", "entry's response verdict is not the one the filter gave for this request", replay)
 		}
 		if s.reqKind == 4 && e.ResponseResult != nil {
 			r.Violate("entry-not-own-request", "entry has a response verdict although the response of a rewritten request is not filtered", replay)
 		}
-		if s.rw.msg != nil && int(e.ResponseCode) != s.rw.msg.Rcode {
+		if s.rw.msg != nil && s.rw.msg.Rcode <= 0xFFF && int(e.ResponseCode) != s.rw.msg.Rcode {
 			r.Violate("entry-wrong-rcode", fmt.Sprintf("entry rcode %d, client got %d", e.ResponseCode, s.rw.msg.Rcode), replay)
 		}
 		if lg.chunk != nil {
@@ -1748,6 +2103,45 @@ func (s *spec) class() string {
 	return "served-anon"
 }
 
+// countInputs records which input classes a logged request exercised.
+func countInputs(r *hlib.Result, s *spec) {
+	if len(s.logs) == 0 {
+		return
+	}
+	rc := int(s.logs[0].e.ResponseCode)
+	switch {
+	case rc == 0:
+		r.Count("stack.logged_rcode_0")
+	case rc <= 0xF:
+		r.Count("stack.logged_rcode_1_15")
+	case rc <= 0xFFF:
+		r.Count("stack.logged_rcode_extended_16_4095")
+	default:
+		r.Count("stack.logged_rcode_beyond_wire")
+	}
+	if strings.Contains(s.orig.shape, "https:") {
+		r.Count("stack.logged_answer_with_https")
+	}
+	if strings.Contains(s.orig.shape, ",") {
+		r.Count("stack.logged_answer_several_records")
+	}
+	if strings.Contains(s.orig.shape, "nil") || strings.Contains(s.orig.shape, "bad") {
+		r.Count("stack.logged_answer_with_unusable_address")
+	}
+	if s.qclass != dns.ClassINET {
+		r.Count("stack.logged_qclass_not_in")
+	}
+	if s.doBit {
+		r.Count("stack.logged_do_bit")
+	}
+	if s.fltOff || s.devFltOff {
+		r.Count("stack.logged_filtering_off")
+	}
+	if s.locASN > 65535 && s.hasLoc {
+		r.Count("stack.logged_asn_above_16_bits")
+	}
+}
+
 func stackCampaign(o *hlib.Opts, r *hlib.Result, m *hlib.Model) {
 	rng := o.Rand("stack")
 	n := 20000
@@ -1789,6 +2183,7 @@ func stackCampaign(o *hlib.Opts, r *hlib.Result, m *hlib.Model) {
 		r.Count("stack." + class)
 		r.Count("stack.dev_" + s.devKind)
 		r.Count("stack.srv_" + s.srv)
+		countInputs(r, s)
 		r.Case(canonStack(s.line), class != "served-anon")
 		if i < 400 && (class == "logged-with-ip" || class == "profile-not-logged" || class == "dropped") {
 			r.Sample(map[string]any{"campaign": "stack", "class": class, "op": s.line, "effects": gots[len(gots)-1]}, 9)
